@@ -136,3 +136,41 @@ Example transpose_example :
   let A : crs := [[(3, 1#1); (1, 2#1); (3, 5#1)]; []; [(2, 7#1)]] in
   wf 3 A = true /\ transpose 3 A = [[(1, 2#1)]; [(3, 7#1)]; [(1, 1#1); (1, 5#1)]].
 Proof. split; reflexivity. Qed.
+
+(* the number of stored elements is preserved (the code keeps ncnt_): nothing is dropped or duplicated globally *)
+Lemma put_count b k e : k < length b -> length (concat (put b k e)) = S (length (concat b)).
+Proof.
+  revert k; induction b as [|r b IH]; intros [|k] H; cbn [put concat length] in *; try lia.
+  - rewrite !app_length. cbn. lia.
+  - rewrite !app_length. rewrite IH by lia. lia.
+Qed.
+
+Lemma scatter_row_count cols r row b : wf_row cols row = true -> length b = cols ->
+  length (concat (scatter_row r row b)) = length (concat b) + length row.
+Proof.
+  unfold scatter_row. revert b; induction row as [|ce row IH]; intros b Hwf Hl.
+  - cbn. lia.
+  - cbn [fold_left length]. cbn [wf_row forallb] in Hwf. apply andb_prop in Hwf. destruct Hwf as [Hce Hrow].
+    apply andb_prop in Hce. destruct Hce as [H1 H2]. apply Nat.leb_le in H1. apply Nat.leb_le in H2.
+    rewrite IH; [| exact Hrow | rewrite put_length; exact Hl].
+    rewrite put_count by lia. lia.
+Qed.
+
+Lemma scatter_count cols r A b : wf cols A = true -> length b = cols ->
+  length (concat (scatter r A b)) = length (concat b) + length (concat A).
+Proof.
+  revert r b; induction A as [|row A IH]; intros r b Hwf Hl.
+  - cbn. lia.
+  - cbn [scatter concat]. cbn [wf forallb] in Hwf. apply andb_prop in Hwf. destruct Hwf as [Hrow HA].
+    rewrite IH; [| exact HA | rewrite scatter_row_length; exact Hl].
+    rewrite (scatter_row_count cols) by assumption. rewrite app_length. lia.
+Qed.
+
+Lemma concat_repeat_nil n : concat (repeat ([] : crow) n) = [].
+Proof. induction n as [|n IH]; cbn; auto. Qed.
+
+Theorem transpose_count cols A : wf cols A = true -> length (concat (transpose cols A)) = length (concat A).
+Proof.
+  intro Hwf. unfold transpose. rewrite (scatter_count cols) by (try assumption; apply repeat_length).
+  rewrite concat_repeat_nil. reflexivity.
+Qed.
